@@ -462,6 +462,24 @@ func genOpts(w *bufio.Writer, r *rng, id, size int) {
 	} else {
 		fmt.Fprintln(w, strings.Replace(dumpBuilder(d2), "impl ", "impl2 ", 1))
 	}
+	// two functions whose default slices share one backing array with spare capacity: what one of
+	// them is called with must never show up among the other's defaults
+	if k > 0 {
+		common := make([]am.Arg, len(defs), len(defs)+4)
+		copy(common, defs)
+		f1, err1 := am.NewFunc(func() int { return 0 }, common...)
+		xo := randOpt(r, &vid)
+		f2, err2 := am.NewFunc(func() int { return 0 }, append(common, xo.arg)...)
+		if err1 == nil && err2 == nil {
+			fmt.Fprintf(w, "x%s\n", xo.line)
+			var d3 am.VerifBuilderDump
+			if recovered(func() { am.VerifBuilder(f1, call...); f1.Call(call...); d3 = am.VerifBuilder(f2) }) {
+				fmt.Fprintf(w, "impl3 panic\n")
+			} else {
+				fmt.Fprintln(w, strings.Replace(dumpBuilder(d3), "impl ", "impl3 ", 1))
+			}
+		}
+	}
 	fmt.Fprintf(w, "end\n")
 }
 
